@@ -216,7 +216,7 @@ def run_op(case, seed):
                     # aliasing: the operator applied to (a view of) an array it was built from
                     ok, e = True, 0.0
                     for arr, cp in created:
-                        if list(arr.shape) == ish and np.issubdtype(arr.dtype, np.number):
+                        if list(arr.shape) == ish and np.issubdtype(arr.dtype, np.inexact):   # (a narrow-integer multiplier fed back as INPUT would overflow in NumPy's own integer arithmetic)
                             out = A(arr)
                             ok, e = _close(out, M @ cp.ravel().astype(complex), 1e-9)
                             break
